@@ -1,7 +1,8 @@
 SPECIFICATION Spec
 CONSTANTS
-  MaxBytes = 3
-  Cuts = {"origin", "transit"}
+  MaxBytes = 2
+  Cuts = {"origin", "transit", "stall"}
+  ForwarderWaitsOnNode = FALSE
   AcceptLeavesDeadline = FALSE
   MaxNotices = 1
   NoticeEndsStream = FALSE
